@@ -872,6 +872,8 @@ def _isinstance(x, t):
             return True
         if nm in ("tuple",) and (isinstance(x, tuple) or getattr(x, "is_tuple", False)):
             return True
+        if nm == "Iterable" and (isinstance(x, (list, tuple, str, dict)) or is_array(x)):
+            return True
     return False
 
 
